@@ -6,7 +6,7 @@ let () =
       (match parts with
        | [] -> print_string "!empty\n"
        | op :: args ->
-           (try print_string (String.concat " " (Ops_base.dispatch op args) ^ "\n")
+           (try print_string (String.concat " " ((try Hashtbl.find Driver.ops op with Not_found -> failwith ("unknown op " ^ op)) args) ^ "\n")
             with e -> print_string ("!" ^ Printexc.to_string e ^ "\n")));
       flush stdout
     done
